@@ -52,8 +52,23 @@ fn check_i(sa: bool, a: &[u64], sb: bool, b: &[u64]) -> Verdict {
         let m = ra.divrem_floor(&rb).1;
         let next = if m.is_zero() { ra.clone() } else { ra.add(&rb.sub(&m)) };
         let prev = ra.sub(&m);
-        ctx(must_return("next_multiple_of", || x.next_multiple_of(&y)).and_then(|v| eq_bi(&v, &next)), "BigInt::next_multiple_of")?;
-        ctx(must_return("prev_multiple_of", || x.prev_multiple_of(&y)).and_then(|v| eq_bi(&v, &prev)), "BigInt::prev_multiple_of")?;
+        let gn = must_return("next_multiple_of", || x.next_multiple_of(&y))?;
+        let gp = must_return("prev_multiple_of", || x.prev_multiple_of(&y))?;
+        ctx(eq_bi(&gn, &next), "BigInt::next_multiple_of")?;
+        ctx(eq_bi(&gp, &prev), "BigInt::prev_multiple_of")?;
+        // independent predicate (not the formula): a multiple of b, less than |b| away from a, on the side given by
+        // the sign of b (num-integer: next rounds towards the sign of b, prev away from it)
+        for (name, got, dir) in [("next_multiple_of", ref_of_bi(&gn), 1), ("prev_multiple_of", ref_of_bi(&gp), -1)] {
+            if !got.mag.rem(&rb.mag).is_zero() {
+                return Err(format!("BigInt::{}: result is not a multiple of the argument", name));
+            }
+            let d = got.sub(&ra); // result - a
+            let toward = if rb.neg { -dir } else { dir };
+            let ok_side = d.is_zero() || (d.signum() == toward);
+            if !d.mag.lt(&rb.mag) || !ok_side {
+                return Err(format!("BigInt::{}: result {} is not the nearest multiple on the documented side of {}", name, trunc(&got.hex(), 80), trunc(&ra.hex(), 80)));
+            }
+        }
     }
     if x.is_even() != !ra.mag.is_odd() || x.is_odd() != ra.mag.is_odd() {
         return Err("BigInt::is_even/is_odd wrong".into());
@@ -118,7 +133,10 @@ fn check_u(a: &[u64], b: &[u64]) -> Verdict {
 
 fn pair() -> BoxedStrategy<(Vec<u64>, Vec<u64>)> {
     prop_oneof![
-        20 => (gen::nat(6), gen::nat(6)),
+        17 => (gen::nat(6), gen::nat(6)),
+        // large, mostly co-prime values and a large common factor (Stein's subtract-shift loop over several asm blocks)
+        2 => (gen::big_nat(vec![10, 21, 36]), gen::big_nat(vec![9, 20, 35])),
+        1 => (gen::big_nat(vec![8, 12]), gen::big_nat(vec![5, 9, 14]), gen::big_nat(vec![5, 10])).prop_map(|(g, u, v)| (rn(&g).mul(&rn(&u)).to_u64_digits(), rn(&g).mul(&rn(&v)).to_u64_digits())),
         // (g*u*2^s, g*v*2^t) with s,t spanning several digits and multi-digit g
         35 => (gen::nat_nonzero(3), gen::nat(3), gen::nat(3), 0u64..=260, 0u64..=260).prop_map(|(g, u, v, s, t)| {
             let g = rn(&g);
